@@ -1,17 +1,17 @@
 SPECIFICATION Spec
 CONSTANTS
   Classes <- Classes4
-  Outs <- OutsC02
-  Durs = {0, 1, 2, 5}
-  Rets <- RetsC02
-  Advs <- AdvsAll
-  Decs <- DecsSleep
+  Outs <- OutsC04
+  Durs = {0, 2}
+  Rets <- RetsOne
+  Advs <- AdvsExact
+  Decs <- DecsAll
   BFaults <- BFaultsNone
   Ras <- RasNone
-  Modes = {"call", "exec"}
+  Modes = {"exec"}
   RunGaps <- GapsNone
-  NRuns = 1
-  Configs <- ConfigsC02
+  NRuns = 2
+  Configs <- ConfigsC11T
   RecordHist = FALSE
 INVARIANT NoViolation
 INVARIANT AttemptsBounded
